@@ -36,7 +36,13 @@ type Profile struct {
 	GenericFns     bool    // unannotated generic helper functions
 	LetRhsInline   bool    // the right-hand side of a let is always a one-line expression
 	ShadowProb     float64 // probability that a new binding shadows a visible outer name (0 = 0.08)
+	UnitIfElse     bool    // unit-typed if / elif / else statements
+	PipeStmt       bool    // `e |> frt.Println` statements
+	MoreSlice      bool    // Mapi, Collect, Concat, TryFind, SortBy, Take
+	BareLambda     bool    // lambda parameters without annotation where the body determines them
+	GenericTypes   bool    // a generic union GOpt<T> and a generic record GBox<T>
 	RecGroups      bool    // type A = {.. B ..} and B = ... groups with a forward reference
+	TopVarsMin     int     // at least this many top-level variables (with TopVars)
 	NoIf           bool    // no if expressions (C02: not in the list of constructs with promised inference)
 	NoMatch        bool
 	NoFieldAcc     bool
@@ -48,7 +54,7 @@ type Profile struct {
 
 var ProfileC01 = Profile{Name: "c01", MulDiv: true, Lambdas: true, StrMatch: true, Interp: true, RawStr: true, Tuple3: true, InnerFun: true, IfOnly: true,
 	UnionNoDef: true, FieldPerm: true, Partial: true, Pipes: true, HigherOrder: true, CompositeEq: true, UsField: true, SliceLib: true, StringsLib: true,
-	TopVars: true, Shadow: true, LowerFields: true, Recursion: true, StrCompare: true, GenericFns: true, RecGroups: true, MinFuncs: 3, MaxFuncs: 7, MaxDepth: 4}
+	TopVars: true, Shadow: true, LowerFields: true, Recursion: true, StrCompare: true, GenericFns: true, RecGroups: true, UnitIfElse: true, PipeStmt: true, MoreSlice: true, BareLambda: true, GenericTypes: true, MinFuncs: 3, MaxFuncs: 7, MaxDepth: 4}
 
 var ProfileTiny = Profile{Name: "tinyfo", ShadowProb: 0.3, Partial: true, Pipes: true, SliceLib: true, StringsLib: true, HigherOrder: true, CompositeEq: true, Shadow: true, FieldPerm: true, LetRhsInline: true, IfOnly: true, UnionNoDef: true, MinFuncs: 2, MaxFuncs: 5, MaxDepth: 3}
 
@@ -101,23 +107,24 @@ func (s *scope) visible(t *Type) []vinfo {
 }
 
 type Gen struct {
-	R          *core.Rand
-	P          Profile
-	prog       *Program
-	recs       []*RecordDef
-	unions     []*UnionDef
-	funcs      []*FuncDef // callable user functions generated so far
-	gvars      []*VarDef
-	shows      map[string]string // type string -> observer function name
-	tagN       int
-	nameN      int
-	Features   map[string]int
-	curFunc    *FuncDef
-	univ       []*Type
-	hasGid     bool
-	hasGsnd    bool
-	inTopBlock bool // generating the outermost block of a top-level function
-	applied    map[string]bool
+	R             *core.Rand
+	P             Profile
+	prog          *Program
+	recs          []*RecordDef
+	unions        []*UnionDef
+	funcs         []*FuncDef // callable user functions generated so far
+	gvars         []*VarDef
+	shows         map[string]string // type string -> observer function name
+	tagN          int
+	nameN         int
+	Features      map[string]int
+	curFunc       *FuncDef
+	univ          []*Type
+	hasGid        bool
+	hasGsnd       bool
+	inTopBlock    bool // generating the outermost block of a top-level function
+	applied       map[string]bool
+	hiddenGlobals map[string]bool // global variables shadowed by the binder of the arm being generated
 }
 
 func (g *Gen) feat(f string) { g.Features[f]++ }
@@ -155,7 +162,7 @@ func Generate(r *core.Rand, p Profile, pkg string) (*Program, map[string]int) {
 		g.genGenericHelpers()
 	}
 	if p.TopVars {
-		for i := 0; i < r.Intn(3); i++ {
+		for i, n := 0, p.TopVarsMin+r.Intn(4); i < n; i++ {
 			g.genTopVar()
 		}
 	}
@@ -238,6 +245,13 @@ func (g *Gen) genTypes() {
 		}
 		g.unions = append(g.unions, ud)
 		g.add(ud)
+	}
+	if g.P.CompositeEq && g.P.Name == "c01" {
+		// a record with a union-typed field (defined after the unions): equality on it
+		// compares union values nested in a struct
+		rw := &RecordDef{Name: "Rw", Fields: []Field{{"RwTag", TInt}, {"RwU", TUnion(g.unions[0].Name)}}}
+		g.recs = append(g.recs, rw)
+		g.add(rw)
 	}
 	// the universe of value types expressions may have
 	g.univ = []*Type{TInt, TString, TBool, TSlice(TInt), TSlice(TString), TTuple(TInt, TString)}
@@ -392,6 +406,20 @@ func (g *Gen) genObservers() {
 	}
 }
 
+// lam builds a lambda; with BareLambda some parameters of basic type lose their annotation
+// (`fun x -> x + 1`, as in the documentation).
+func (g *Gen) lam(params []Param, body Expr) *Lambda {
+	if g.P.BareLambda {
+		for i := range params {
+			if k := params[i].T.K; (k == KInt || k == KString || k == KBool) && g.R.Chance(0.4) {
+				params[i].NoAnnot = true
+				g.feat("lambda-parameter-without-annotation")
+			}
+		}
+	}
+	return &Lambda{Params: params, Body: ExprBlock(body)}
+}
+
 func (g *Gen) show(t *Type, e Expr) Expr {
 	n, ok := g.shows[t.String()]
 	if !ok {
@@ -517,6 +545,53 @@ func (g *Gen) genGenericHelpers() {
 func (g *Gen) genTopVar() {
 	t := core.Pick(g.R, []*Type{TInt, TString, TBool, TSlice(TInt)})
 	sc := &scope{goNames: map[string]bool{}}
+	if g.R.Chance(0.35) {
+		// the right-hand side is directly a match: its arms are parsed in the root scope. The
+		// binder often reuses the name of an earlier top-level variable of another type.
+		ud := core.Pick(g.R, g.unions)
+		var withPayload []int
+		for i, c := range ud.Cases {
+			if c.Payload != nil {
+				withPayload = append(withPayload, i)
+			}
+		}
+		if len(withPayload) > 0 {
+			ci := core.Pick(g.R, withPayload)
+			pt := ud.Cases[ci].Payload
+			bind := g.fresh("b")
+			if g.R.Chance(0.6) {
+				for _, gv := range g.gvars {
+					if !gv.T.Eq(pt) {
+						bind = gv.Name
+						g.feat("top-level-match-binder-named-like-a-global")
+						break
+					}
+				}
+			}
+			asc := sc.child(true)
+			asc.add(bind, pt)
+			target := &Ctor{Union: ud, Case: ci, Arg: g.expr(pt, sc, 1, false)}
+			if g.R.Chance(0.3) && len(ud.Cases) > 1 {
+				oc := (ci + 1) % len(ud.Cases)
+				target = &Ctor{Union: ud, Case: oc}
+				if ud.Cases[oc].Payload != nil {
+					target.Arg = g.expr(ud.Cases[oc].Payload, sc, 1, false)
+				}
+			}
+			g.hiddenGlobals = map[string]bool{bind: true}
+			armBody := g.expr(t, asc, 1, false)
+			g.hiddenGlobals = nil
+			m := &MatchU{Target: target, Union: ud, Arms: []UArm{{Case: ci, Bind: bind, Body: ExprBlock(armBody)}}, Default: ExprBlock(g.expr(t, sc, 1, false))}
+			if !FreeInBlock(m.Arms[0].Body, bind) {
+				m.Arms[0].Bind = "_"
+			}
+			vd := &VarDef{Name: g.fresh("gv"), T: t, E: m}
+			g.gvars = append(g.gvars, vd)
+			g.add(vd)
+			g.feat("top-level-var-defined-by-match")
+			return
+		}
+	}
 	vd := &VarDef{Name: g.fresh("gv"), T: t, E: g.expr(t, sc, 2, false)}
 	g.gvars = append(g.gvars, vd)
 	g.add(vd)
@@ -821,7 +896,7 @@ func (g *Gen) unitExpr(sc *scope, d int) Expr {
 		lsc := sc.child(true)
 		lsc.add(p, et)
 		body := call("frt.Println", g.show(et, g.expr(et, lsc, 1, true)))
-		return call("slice.Iter", &Lambda{Params: []Param{{Name: p, T: et}}, Body: ExprBlock(body)}, g.expr(TSlice(et), sc, d-1, true))
+		return call("slice.Iter", g.lam([]Param{{Name: p, T: et}}, body), g.expr(TSlice(et), sc, d-1, true))
 	case k < 8:
 		// call a unit user function if there is one
 		for _, f := range g.funcs {
@@ -829,9 +904,37 @@ func (g *Gen) unitExpr(sc *scope, d int) Expr {
 				return g.callFunc(f, sc, d, true)
 			}
 		}
+	case k < 9 && g.P.UnitIfElse && d > 0:
+		// unit-typed if / elif / else. The last statement of a branch that is followed by
+		// elif / else is never an else-less `if` (known finding C06/dangling-else)
+		g.feat("unit-if-else")
+		e := &If{Cond: g.expr(TBool, sc, d-1, true), Then: g.unitBranch(sc, d-1)}
+		for g.R.Chance(0.3) && len(e.Elifs) < 2 {
+			e.Elifs = append(e.Elifs, Elif{g.expr(TBool, sc, d-1, true), g.unitBranch(sc, d-1)})
+		}
+		e.Else = g.block(TUnit, sc, d-1, true, false)
+		return e
+	case k < 10 && g.P.PipeStmt:
+		g.feat("pipe-statement")
+		src := g.expr(TString, sc, d, true)
+		if strings.HasPrefix((&printer{lay: Canonical{}, tiny: g.prog.Tiny}).inline(src, 4), "$") {
+			// a statement must not begin with $" (known finding sinterp-column): apply instead
+			return call("frt.Println", src)
+		}
+		return &Pipe{src, v("frt.Println")}
 	}
 	t := core.Pick(g.R, []*Type{TInt, TString, TBool})
 	return call("frt.Println", g.show(t, g.expr(t, sc, d, true)))
+}
+
+// unitBranch is a unit block whose last statement is not an else-less if.
+func (g *Gen) unitBranch(sc *scope, d int) *Block {
+	b := g.block(TUnit, sc, d, true, false)
+	if i, ok := b.Result.(*If); ok && i.Else == nil {
+		b.Stmts = append(b.Stmts, &ExprStmt{b.Result})
+		b.Result = call("trace", &StrLit{g.tag()})
+	}
+	return b
 }
 
 // blockExpr generates an expression for a block position (block result, right-hand
@@ -1024,7 +1127,7 @@ func (g *Gen) useVar(t *Type, sc *scope) Expr {
 func (g *Gen) gvar(t *Type) Expr {
 	var c []*VarDef
 	for _, x := range g.gvars {
-		if x.T.Eq(t) {
+		if x.T.Eq(t) && !g.hiddenGlobals[x.Name] {
 			c = append(c, x)
 		}
 	}
@@ -1414,7 +1517,7 @@ func (g *Gen) intExpr(sc *scope, d int, fx bool, k int) Expr {
 		lsc.add(a, TInt)
 		lsc.add(x, TInt)
 		body := &BinOp{core.Pick(g.R, []string{"+", "-", "*"}), g.expr(TInt, lsc, 1, fx), g.expr(TInt, lsc, 1, fx)}
-		return call("slice.Fold", &Lambda{Params: []Param{{Name: a, T: TInt}, {Name: x, T: TInt}}, Body: ExprBlock(body)}, g.expr(TInt, sc, d-1, fx), g.expr(TSlice(TInt), sc, d-1, fx))
+		return call("slice.Fold", g.lam([]Param{{Name: a, T: TInt}, {Name: x, T: TInt}}, body), g.expr(TInt, sc, d-1, fx), g.expr(TSlice(TInt), sc, d-1, fx))
 	case k == 17 && g.P.SliceLib:
 		// Head / Last / Item of a slice that is non-empty by construction
 		g.feat("slice.Head/Last/Item")
@@ -1486,6 +1589,9 @@ func (g *Gen) strExpr(sc *scope, d int, fx bool, k int) Expr {
 }
 
 func (g *Gen) eqType() *Type {
+	if g.P.CompositeEq && g.P.Name == "c01" && g.R.Chance(0.12) {
+		return TRec("Rw")
+	}
 	if g.P.CompositeEq && g.R.Chance(0.5) {
 		return core.Pick(g.R, g.univ)
 	}
@@ -1520,13 +1626,20 @@ func (g *Gen) boolExpr(sc *scope, d int, fx bool, k int) Expr {
 	case k == 18 && g.P.SliceLib:
 		g.feat("slice.IsEmpty")
 		return call(core.Pick(g.R, []string{"slice.IsEmpty", "slice.IsNotEmpty"}), g.expr(TSlice(TInt), sc, d-1, fx))
+	case k == 19 && g.P.MoreSlice && g.P.Lambdas && g.R.Chance(0.35):
+		// only the flag of TryFind is observed (a miss returns the zero value)
+		g.feat("slice.TryFind")
+		x := g.fresh("x")
+		lsc := sc.child(true)
+		lsc.add(x, TInt)
+		return call("frt.Snd", call("slice.TryFind", g.lam([]Param{{Name: x, T: TInt}}, g.expr(TBool, lsc, 1, fx)), g.expr(TSlice(TInt), sc, d-1, fx)))
 	case k == 19 && g.P.SliceLib && g.P.Lambdas:
 		fn := core.Pick(g.R, []string{"slice.Forall", "slice.Forany"})
 		g.feat(fn)
 		x := g.fresh("x")
 		lsc := sc.child(true)
 		lsc.add(x, TInt)
-		return call(fn, &Lambda{Params: []Param{{Name: x, T: TInt}}, Body: ExprBlock(g.expr(TBool, lsc, 1, fx))}, g.expr(TSlice(TInt), sc, d-1, fx))
+		return call(fn, g.lam([]Param{{Name: x, T: TInt}}, g.expr(TBool, lsc, 1, fx)), g.expr(TSlice(TInt), sc, d-1, fx))
 	}
 	return nil
 }
@@ -1555,6 +1668,9 @@ func (g *Gen) sliceExpr(t *Type, sc *scope, d int, fx bool, k int) Expr {
 	if !g.P.SliceLib {
 		return nil
 	}
+	if g.P.MoreSlice && g.P.Lambdas && g.R.Chance(0.25) {
+		return g.moreSlice(t, sc, d, fx)
+	}
 	et := t.Elem()
 	switch {
 	case k == 9:
@@ -1577,13 +1693,13 @@ func (g *Gen) sliceExpr(t *Type, sc *scope, d int, fx bool, k int) Expr {
 		lsc := sc.child(true)
 		lsc.add(x, st)
 		g.feat("slice.Map")
-		return call("slice.Map", &Lambda{Params: []Param{{Name: x, T: st}}, Body: ExprBlock(g.expr(et, lsc, min(d-1, 2), fx))}, g.expr(TSlice(st), sc, d-1, fx))
+		return call("slice.Map", g.lam([]Param{{Name: x, T: st}}, g.expr(et, lsc, min(d-1, 2), fx)), g.expr(TSlice(st), sc, d-1, fx))
 	case k == 14 && g.P.Lambdas:
 		x := g.fresh("x")
 		lsc := sc.child(true)
 		lsc.add(x, et)
 		g.feat("slice.Filter")
-		return call("slice.Filter", &Lambda{Params: []Param{{Name: x, T: et}}, Body: ExprBlock(g.expr(TBool, lsc, min(d-1, 2), fx))}, g.expr(t, sc, d-1, fx))
+		return call("slice.Filter", g.lam([]Param{{Name: x, T: et}}, g.expr(TBool, lsc, min(d-1, 2), fx)), g.expr(t, sc, d-1, fx))
 	case k == 15 && (et.K == KInt || et.K == KString):
 		g.feat("slice.Sort")
 		return call("slice.Sort", g.expr(t, sc, d-1, fx))
@@ -1600,7 +1716,7 @@ func (g *Gen) sliceExpr(t *Type, sc *scope, d int, fx bool, k int) Expr {
 		if !g.P.Lambdas {
 			return nil
 		}
-		return call("slice.Zip", a, call("slice.Map", &Lambda{Params: []Param{{Name: x, T: et.Args[0]}}, Body: ExprBlock(g.expr(et.Args[1], lsc, 1, false))}, a))
+		return call("slice.Zip", a, call("slice.Map", g.lam([]Param{{Name: x, T: et.Args[0]}}, g.expr(et.Args[1], lsc, 1, false)), a))
 	case k == 18 && g.P.Pipes && g.P.Lambdas:
 		// pipeline: xs |> slice.Filter p |> slice.Map f
 		st := core.Pick(g.R, []*Type{TInt, TString})
@@ -1611,8 +1727,8 @@ func (g *Gen) sliceExpr(t *Type, sc *scope, d int, fx bool, k int) Expr {
 		l2.add(y, st)
 		g.feat("pipeline-filter-map")
 		return &Pipe{&Pipe{g.expr(TSlice(st), sc, d-1, fx),
-			&Call{Fn: v("slice.Filter"), Args: []Expr{&Lambda{Params: []Param{{Name: x, T: st}}, Body: ExprBlock(g.expr(TBool, l1, 1, fx))}}}},
-			&Call{Fn: v("slice.Map"), Args: []Expr{&Lambda{Params: []Param{{Name: y, T: st}}, Body: ExprBlock(g.expr(et, l2, 1, fx))}}}}
+			&Call{Fn: v("slice.Filter"), Args: []Expr{g.lam([]Param{{Name: x, T: st}}, g.expr(TBool, l1, 1, fx))}}},
+			&Call{Fn: v("slice.Map"), Args: []Expr{g.lam([]Param{{Name: y, T: st}}, g.expr(et, l2, 1, fx))}}}
 	case k == 19 && g.P.UsField && g.P.Pipes && (et.K == KInt || et.K == KString || et.K == KBool):
 		// rs |> slice.Map _.Field   (the documented form: the record type flows in from the left)
 		for _, r := range g.recs {
@@ -1673,4 +1789,52 @@ func GenerateC02(r *core.Rand, pkg string, n int) (*Program, []*FuncDef) {
 		subjects = append(subjects, f)
 	}
 	return g.prog, subjects
+}
+
+// moreSlice: Mapi / Collect / SortBy (injective key) / Take / Concat
+func (g *Gen) moreSlice(t *Type, sc *scope, d int, fx bool) Expr {
+	et := t.Elem()
+	// Mapi / Collect / SortBy (injective key) / Take / Concat
+	switch g.R.Intn(5) {
+	case 0:
+		st := core.Pick(g.R, []*Type{TInt, TString})
+		i, x := g.fresh("i"), g.fresh("x")
+		lsc := sc.child(true)
+		lsc.add(i, TInt)
+		lsc.add(x, st)
+		g.feat("slice.Mapi")
+		return call("slice.Mapi", g.lam([]Param{{Name: i, T: TInt}, {Name: x, T: st}}, g.expr(et, lsc, min(d-1, 2), fx)), g.expr(TSlice(st), sc, d-1, fx))
+	case 1:
+		st := core.Pick(g.R, []*Type{TInt, TString})
+		x := g.fresh("x")
+		lsc := sc.child(true)
+		lsc.add(x, st)
+		g.feat("slice.Collect")
+		return call("slice.Collect", g.lam([]Param{{Name: x, T: st}}, g.expr(t, lsc, min(d-1, 2), fx)), g.expr(TSlice(st), sc, d-1, fx))
+	case 2:
+		if et.K == KInt {
+			x := g.fresh("x")
+			g.feat("slice.SortBy")
+			return call("slice.SortBy", g.lam([]Param{{Name: x, T: TInt}}, &BinOp{"-", &IntLit{g.R.Intn(9)}, v(x)}), g.expr(t, sc, d-1, fx))
+		}
+		if et.K == KString {
+			x := g.fresh("x")
+			g.feat("slice.SortBy")
+			return call("slice.SortBy", g.lam([]Param{{Name: x, T: TString}}, &BinOp{"+", v(x), &StrLit{"~"}}), g.expr(t, sc, d-1, fx))
+		}
+		return nil
+	case 3:
+		g.feat("slice.Take")
+		if g.R.Bool() {
+			return call("slice.Take", &IntLit{0}, g.expr(t, sc, d-1, fx))
+		}
+		return call("slice.Take", &IntLit{1}, call("slice.PushLast", g.expr(et, sc, d-1, fx), g.expr(t, sc, d-1, fx)))
+	default:
+		g.feat("slice.Concat")
+		sl := &SliceLit{Elem: t}
+		for i := 0; i < 1+g.R.Intn(3); i++ {
+			sl.Elems = append(sl.Elems, g.expr(t, sc, d-1, fx))
+		}
+		return call("slice.Concat", sl)
+	}
 }
